@@ -334,3 +334,67 @@ def generated_pin(x: int) -> bool:
     finally:
         uninstall()
     return policy_ok(pin)
+
+
+# ------------------------------------------------------------------ a PIN change that happens while repairing the connection
+
+@obligation(tier="quick", parts=2, timeout=200, part_names=["ledger", "sgx"],
+            bounds="history: start with the device already in the signer and a pending PIN change (no PIN file) -> serving -> link error -> "
+                   "the device comes back in the bootloader -> the next request repairs the connection, which unlocks and attempts the change "
+                   "(device reaction symbolic among 6, failing file operation symbolic): the manager must stop after the attempt, and the "
+                   "file / device PIN stay consistent",
+            examples=[(0, dict(rei=0, fault=-1)), (1, dict(rei=1, fault=-1)), (0, dict(rei=4, fault=-1))])
+def change_during_reconnect(rei: int, fault: int) -> bool:
+    """
+    pre: 0 <= rei <= 5
+    pre: -1 <= fault <= 5
+    post: _
+    """
+    from harness.world import handle
+    from harness.catalog import valid_request
+    from sim.base import raise_fault, FAULT_READ
+    platform = ["ledger", "sgx"][part()]
+    env = Env(None, fault, -1)
+    install(env, [25, 24, 23, 22, 61, 60, 59, 58])
+    try:
+        device = PinDevice(env, DEFAULT_PIN)
+        device.mode = 3                      # already in the signer: start-up does not go through the bootloader
+        device.newpin_reaction = REACTIONS[rei]
+        try:
+            pin = pinmod.FileBasedPin(PATH, DEFAULT_PIN, force_change=False)
+        except pinmod.PinError:
+            return True                      # (a failing file operation at start-up: the manager does not start)
+        pin.logger = NULL_LOGGER
+        proto, dongle, world = make_stack(device, platform=platform, pin=pin, connect=False)
+        proto.initialize_device()
+        st = {"armed": True}
+
+        def hook(idx, apdu):
+            if st["armed"]:
+                st["armed"] = False
+                device.mode = 2              # unplugged: comes back locked, in the bootloader
+                raise_fault(FAULT_READ)
+        world.fault_hook = hook
+        if handle(proto, valid_request("getPubKey")) != ("reply", {"errorcode": -905}):
+            return False
+        out = handle(proto, valid_request("getPubKey"))
+        attempted = len(device.newpin_offered) > 0
+        ok = True
+        if attempted and out != ("raised", "HSM2ProtocolInterrupt"):
+            ok = False                       # (4) after any change attempt the manager stops instead of carrying on
+        for p in device.newpin_offered:
+            if not policy_ok(bytes(p)):
+                ok = False
+        acked = device.acked
+        if env.content is not None and not (acked and env.content == bytes(device.actual_pin)):
+            ok = False
+        if not acked and (env.content is not None or bytes(device.actual_pin) != DEFAULT_PIN):
+            ok = False
+        actual = bytes(device.actual_pin)
+        return ok or known("C10-ack-then-lost", acked and fault >= 0 and env.content != actual)
+    except Exception as e:
+        reraise_control_flow(e)
+        note("raised", type(e).__name__, str(e)[:200])
+        return False
+    finally:
+        uninstall()
